@@ -142,7 +142,13 @@ pub fn check_expect(prop: &str, case: &Case, expect: &Expect, uncertain: bool, p
 }
 
 pub fn panic_site(p: &str) -> String {
-    p.rsplit(" @ ").next().unwrap_or("").rsplit('/').next().unwrap_or("").to_string()
+    // "<message> @ <file>:<line>": keep the crate-relative path so that the site is unambiguous
+    let loc = p.rsplit(" @ ").next().unwrap_or("");
+    if let Some(i) = loc.find("/registry/src/") {
+        let rest = &loc[i + "/registry/src/".len()..];
+        return rest.splitn(2, '/').nth(1).unwrap_or(rest).to_string();
+    }
+    loc.trim_start_matches("/repo/").to_string()
 }
 
 pub fn names(g: &Generated) -> (Vec<String>, Vec<String>) {
